@@ -43,6 +43,40 @@ use crate::values::Value_;
 /// malformed client from making us allocate without bound.
 const MAX_MESSAGE_BYTES: usize = 16 * 1024 * 1024;
 
+/// Verification hook H4: named schedule points. Sleeps for the number
+/// of milliseconds given for `point` in the environment variable
+/// `GARDEN_VERIF_DELAY=point:ms,point:ms`; a no-op otherwise. Only
+/// compiled with `--cfg wilfred_garden_verif`.
+#[cfg(wilfred_garden_verif)]
+fn verif_point(point: &str) {
+    static DELAYS: std::sync::OnceLock<Vec<(String, u64)>> = std::sync::OnceLock::new();
+    let delays = DELAYS.get_or_init(|| {
+        std::env::var("GARDEN_VERIF_DELAY")
+            .unwrap_or_default()
+            .split(',')
+            .filter_map(|item| {
+                let (name, ms) = item.trim().rsplit_once(':')?;
+                Some((name.to_owned(), ms.parse::<u64>().ok()?))
+            })
+            .collect()
+    });
+    for (name, ms) in delays {
+        if name == point {
+            thread::sleep(Duration::from_millis(*ms));
+        }
+    }
+}
+
+/// Like `verif_point`, but the point name is prefixed with `flusher_`
+/// on the output flusher thread and with `drain_` elsewhere, since
+/// `flush_output_buffer` is shared by both.
+#[cfg(wilfred_garden_verif)]
+fn verif_point_by_thread(suffix: &str) {
+    let is_flusher = thread::current().name() == Some("nrepl-output-flusher");
+    let prefix = if is_flusher { "flusher_" } else { "drain_" };
+    verif_point(&format!("{prefix}{suffix}"));
+}
+
 fn bstr(s: impl Into<String>) -> Value {
     Value::Bytes(s.into().into_bytes())
 }
@@ -330,6 +364,8 @@ fn flush_output_buffer(
     base_msg: &HashMap<Vec<u8>, Value>,
 ) {
     let captured = std::mem::take(&mut *buf.lock().expect("output buffer poisoned"));
+    #[cfg(wilfred_garden_verif)]
+    verif_point_by_thread("take_send");
     if !captured.is_empty() {
         let mut msg = base_msg.clone();
         msg.insert(key.to_vec(), bstr(captured));
@@ -440,8 +476,16 @@ fn eval_code_in_namespace(
     let eval_msec = eval_start.elapsed().as_millis() as i64;
 
     // Stop the flusher and drain whatever printed since its last pass.
+    #[cfg(wilfred_garden_verif)]
+    verif_point("before_stop");
     drop(flush_stop_tx);
+    #[cfg(wilfred_garden_verif)]
+    verif_point("before_join");
     let _ = flusher.join();
+    #[cfg(wilfred_garden_verif)]
+    verif_point("after_join");
+    #[cfg(wilfred_garden_verif)]
+    verif_point("before_drain");
     flush_output_buffer(stdout_buf, b"out", response_tx, base_msg);
     flush_output_buffer(stderr_buf, b"err", response_tx, base_msg);
 
@@ -771,6 +815,8 @@ impl Connection {
         if let Some(s) = self.sessions.get(id) {
             s.interrupted.store(true, Ordering::SeqCst);
         }
+        #[cfg(wilfred_garden_verif)]
+        verif_point("close_after_store");
         self.sessions.remove(id).is_some()
     }
 
@@ -849,8 +895,12 @@ fn session_worker(
     let mut env = Env::new(id_gen, vfs);
 
     while let Ok(req) = request_rx.recv() {
+        #[cfg(wilfred_garden_verif)]
+        verif_point("after_dequeue");
         // Clear any stray interrupt set while the session was idle.
         interrupted.store(false, Ordering::SeqCst);
+        #[cfg(wilfred_garden_verif)]
+        verif_point("after_reset");
 
         let stdout_buf = Arc::new(Mutex::new(String::new()));
         let stderr_buf = Arc::new(Mutex::new(String::new()));
@@ -903,7 +953,16 @@ fn session_worker(
                 handle_lookup(&env, &sym, &base_msg, temp_built_in_files.as_ref().as_ref())
             }
         };
+        #[cfg(wilfred_garden_verif)]
+        let mut verif_responses_left = responses.len();
         for r in responses {
+            #[cfg(wilfred_garden_verif)]
+            {
+                if verif_responses_left == 1 {
+                    verif_point("before_done");
+                }
+                verif_responses_left -= 1;
+            }
             if response_tx.send(r).is_err() {
                 return;
             }
@@ -1216,6 +1275,8 @@ fn handle_message(conn: &mut Connection, request: &HashMap<Vec<u8>, Value>) {
             match session_id.and_then(|s| conn.sessions.get(s)) {
                 Some(s) => {
                     s.interrupted.store(true, Ordering::SeqCst);
+                    #[cfg(wilfred_garden_verif)]
+                    verif_point("interrupt_after_store");
                     let mut msg = base;
                     msg.insert(b"status".to_vec(), Value::List(vec![bstr("done")]));
                     conn.send(Value::Dict(msg));
